@@ -56,6 +56,10 @@ CHECKS = {
   text="Theorems in coq/Props/C05.v: (1) C05_str_stays_str: every valid string (any length) that the dumper's resolver table regards as str -- and may hence be written unquoted -- is resolved to str by yatiml's loader table (cross-table certificate over BOTH generated tables; this is the theorem that failed before fix 2c35a4a with witness 1e5); (2) C05_int/float/date_texts: the texts the representers write for ints of every size, floats incl. non-finite, dates, datetimes are resolved by the loader to the same tag (image certificates); (3) C05_reparse_identity: composing the dumped text gives back exactly the represented tree for values of every size/shape and for EVERY quoting decision of the emitter; (4) C05_roundtrip_partial: hence load(text) = load(represented tree). The remaining structural step load(represent v) = v for unambiguous class-typed values is NOT proved (stated as missing in the file); it is covered by the tie.",
   note="Trusted: Coq kernel + vm_compute. Tie: generated class models x values (889 quick / ~20k thorough) incl. every pool string alone/in a list/as key+value: load(dumps(v)) judged by structural equality (classes, attribute values, list and mapping order; dict/OrderedDict identified); values that an independent over-approximation of the documented recognition rules (required-key sets) cannot tell from another registered class are skipped and counted; the load model is evaluated in Coq on each composed dump via a sentinel-default twin of the class model and compared with the implementation. Search: witness strings of failed certificates replayed as load(dumps(s)).",
   technique='Coq proof: regular-language certificates across two regenerated resolver tables + induction over values; vm_compute differential correspondence', design='6 C05'),
+ 'C03': dict(
+  text="Theorems in coq/Props/C03.v: (1) C03_exactly_one_or_fail: processing a node succeeds only if exactly one type was recognised, otherwise RecognitionError; (2) C03_candidates_registered_concrete: everything a class position recognises is a registered, non-abstract class that is the expected class or a registered descendant (any hierarchy depth, multiple inheritance); (3) C03_most_derived / subclass_match_wins / abstract_not_candidate: the candidate set is what registered direct subclasses recognise recursively, the class itself only if none matched and it is concrete; (4) C03_tag_picks / ambiguous_stays_ambiguous / tag_conflict_rejects / decision_never_invents: an explicit tag decides only among the candidates, several candidates without such a tag stay several (so the load fails), a tag naming an incompatible or unknown class rejects; (5) C03_union_order: under any permutation of Union members the same set is recognised and the same single member. Independence of the REGISTRATION order is not proved; it is decided by the tie (every case re-run under random permutations).",
+  note="Trusted: Coq kernel; load model tied to yatiml on hierarchy-heavy generated models (multiple inheritance, abstract and unregistered intermediates, custom recognisers, enum-vs-bool unions) x documents with/without class tags (~360 quick / ~9000 thorough), each re-run under permutations of registration order and of all Union members: implementation vs itself (outcome classes must coincide) and vs the model; the oracle also rejects any loaded object of an abstract or unregistered class.",
+  technique='Coq proof: case analysis of the candidate/decision functions, soundness induction, permutation invariance of duplicate-free unions; vm_compute differential correspondence + metamorphic permutation oracle', design='6 C03'),
 }
 
 REASON_TODO = 'check not built yet (work in progress; DESIGN.md section 11 gives the build order)'
